@@ -34,7 +34,7 @@ CLAIM = dict(
     "ov_ceil_bridge (float bridge for the overlap; the quotient's measured relative error and the breakpoint cases are recorded in the evidence), blend_and_assemble_unusable (negative: the method raises on every call; known finding) with the "
     "specification blend_spec_partial (partition-of-unity weights reproduce the image; interior indicators are such weights) - the blending weights of the code are NOT modelled because the code cannot run. Tie: differential correspondence of every "
     "public table of Patches with the model (exact on dyadic geometries) + oracle on the implementation.",
-    note="set_image followed by assemble() is checked by the oracle only (no theorem); blend_and_assemble raises AttributeError on every call (known finding; only a specification is proved); 3-D and space-time patches raise NotImplementedError in the code (modelled, error class tied); "
+    note="metadata dtype classes are exercised on the general stream (python-int dimensions / origin, the default dimensions [1, 1], float32 - compared with the float32 unit roundoff -, mixed); the model is over Q and hence dtype-agnostic; set_image followed by assemble() is checked by the oracle only (no theorem); blend_and_assemble raises AttributeError on every call (known finding; only a specification is proved); 3-D and space-time patches raise NotImplementedError in the code (modelled, error class tied); "
     "on general (non-dyadic) geometries the overlap in voxels is read from the implementation and only checked to be one of the two "
     "admissible roundings of the exact value.",
     technique="Lean 4 proof (list/index-grid model, induction over patches) + differential correspondence + oracle search",
@@ -55,6 +55,24 @@ def make_cfg(rng, N, n, rel, regime, colour):
         cfg["dims"] = [10 ** rng.uniform(-3, 3), 10 ** rng.uniform(-3, 3)] if rng.random() < 0.7 else [rng.choice([0.1, 0.3, 0.92, 1.05, 1.1, 1.5, 2.8]) for _ in range(2)]
         cfg["rel"] = float(rel)
         cfg["origin"] = rng.choice([None, [rng.uniform(-50, 50), rng.uniform(-50, 50)]])
+        # dtype of the METADATA: python ints (integer-typed origin / dimensions arrays inside the image, also via the default
+        # dimensions [1, 1] and the default origin derived from whole-numbered dimensions), float32, mixed
+        meta = rng.choice(["float", "float", "int", "int", "default-dims", "float32", "mixed"])
+        cfg["meta"] = meta
+        if meta == "int":
+            cfg["dims"] = [rng.randint(1, 9), rng.randint(1, 9)]
+            cfg["origin"] = rng.choice([None, [rng.randint(-20, 20), rng.randint(-20, 20)]])
+        elif meta == "default-dims":
+            cfg["dims"] = [1, 1]  # not passed to the constructor
+            cfg["origin"] = rng.choice([None, None, [rng.randint(-5, 5), rng.randint(-5, 5)]])
+        elif meta == "float32":
+            cfg["dims"] = [float(np.float32(x)) for x in cfg["dims"]]
+            if cfg["origin"] is not None:
+                cfg["origin"] = [float(np.float32(x)) for x in cfg["origin"]]
+        elif meta == "mixed":
+            cfg["dims"] = [rng.randint(1, 9), cfg["dims"][1]]
+            if cfg["origin"] is not None:
+                cfg["origin"] = [cfg["origin"][0], rng.randint(-20, 20)]
     return cfg
 
 
@@ -64,9 +82,13 @@ def base_image(d, cfg):
         arr = np.arange(N0 * N1 * 3, dtype=np.int64).reshape(N0, N1, 3)
     else:
         arr = np.arange(N0 * N1, dtype=np.int64).reshape(N0, N1)
-    kw = dict(space_dim=2, dimensions=list(cfg["dims"]), scalar=not cfg["colour"])
+    meta = cfg.get("meta", "float")
+    cast = (lambda x: np.float32(x)) if meta == "float32" else (lambda x: x)
+    kw = dict(space_dim=2, scalar=not cfg["colour"])
+    if meta != "default-dims":
+        kw["dimensions"] = [cast(x) for x in cfg["dims"]]
     if cfg["origin"] is not None:
-        kw["origin"] = list(cfg["origin"])
+        kw["origin"] = [cast(x) for x in cfg["origin"]]
     return call(d.Image, arr, **kw)
 
 
@@ -99,6 +121,7 @@ def evaluate(d, cfg, want_tables=False):
     failures: list of (signature, what, detail)."""
     fails = []
     info = {}
+    E = Fraction(1, 2 ** 23) if cfg.get("meta") == "float32" else EPS  # float32 metadata: the image computes its geometry in float32
     img = base_image(d, cfg)
     if isinstance(img, Raised):
         return [("C19:Image:raises", f"base image cannot be built: {img}", {})], None, info
@@ -114,8 +137,8 @@ def evaluate(d, cfg, want_tables=False):
     dyadic = cfg["regime"] == "dyadic"
     origin = [frac(float(x)) for x in np.asarray(img.origin)]
     D = [frac(x) for x in cfg["dims"]]
-    tolx = Fraction(0) if dyadic else 16 * EPS * (abs(origin[0]) + D[1])
-    toly = Fraction(0) if dyadic else 16 * EPS * (abs(origin[1]) + D[0])
+    tolx = Fraction(0) if dyadic else 16 * E * (abs(origin[0]) + D[1])
+    toly = Fraction(0) if dyadic else 16 * E * (abs(origin[1]) + D[0])
     pv = [int(x) for x in p.pv]
     ov = [int(x) for x in p.ov]
     info["pv"], info["ov"] = pv, ov
@@ -127,7 +150,7 @@ def evaluate(d, cfg, want_tables=False):
                           f"axis {a}: {cfg['N'][a]} voxels in {cfg['n'][a]} patches of physical size {cfg['dims'][a]!r}/{cfg['n'][a]}: patch size {pv[a]} voxels, ceil(N/n) = {ex[a][0]}",
                           {"axis": a, "observed": pv[a], "required": ex[a][0]}))
         x = ex[a][1]
-        lo, hi = ceil(x * (1 - 8 * EPS)), ceil(x * (1 + 8 * EPS))
+        lo, hi = ceil(x * (1 - 8 * E)), ceil(x * (1 + 8 * E))
         if dyadic:
             lo = hi = ceil(x)
         if not (lo <= ov[a] <= hi):
@@ -181,7 +204,7 @@ def evaluate(d, cfg, want_tables=False):
                 # dimensions of the patch = |coordinate(stop) - coordinate(start)|: absolute error of a few ulp of (|origin| + D);
                 # the voxel size inherits it divided by the patch extent
                 oax = (origin[1], origin[0])  # Cartesian component that carries matrix axis a (2-D: rows <-> y, columns <-> x)
-                tolh = [Fraction(0) if dyadic else 16 * EPS * ((abs(oax[a]) + D[a]) / P.img.shape[a] + frac(hb[a])) for a in range(2)]
+                tolh = [Fraction(0) if dyadic else 16 * E * ((abs(oax[a]) + D[a]) / P.img.shape[a] + frac(hb[a])) for a in range(2)]
                 if isinstance(hs, Raised) or any(abs(frac(hs[a]) - frac(hb[a])) > tolh[a] for a in range(2)):
                     beyond = (i + 1) * pv[0] + ov[0] > N0 or (j + 1) * pv[1] + ov[1] > N1
                     fails.append((f"C19:patch.voxel_size!=base.voxel_size:{'roi-beyond-image' if beyond else 'roi-inside-image'}",
